@@ -747,6 +747,16 @@ Notes:
         if init: self._termination(self) #XXX: at generation 0 or always?
         return #XXX: call Terminated ?
 
+    def SetGenerationMonitor(self, monitor, new=False):
+        """select a callable to monitor (x, f(x)) after each solver iteration
+
+input::
+    - a monitor instance or monitor type used to track (x, f(x)). Any data
+      collected in an existing generation monitor will be prepended, unless
+      new is True."""
+        self.Finalize() # log the pending iteration before changing monitors
+        return super(PowellDirectionalSolver, self).SetGenerationMonitor(monitor, new)
+
     def Finalize(self):
         """cleanup upon exiting the main optimization loop"""
         if self._energy_history is not None and self._live: # is decoupled
